@@ -200,6 +200,7 @@ func init() {
 			rules.S9(rc)
 			rules.S2(rc)
 			rules.TMask(rc)
+			rules.E1(rc, fileFilterName("dense_mask_filling.go", "dense_mask_inspection.go", "dense.go", "iterator.go", "iterator_mult.go"), 10)
 		},
 	})
 	register(&Property{
@@ -305,6 +306,7 @@ func init() {
 			rules.LGuards(rc, "C16")
 			rules.T4(rc)
 			rules.S13(rc)
+			rules.S11(rc)
 		},
 	})
 	register(&Property{
